@@ -12,6 +12,8 @@
 namespace c06 {
 std::vector<std::vector<uint8_t> > g_sent;
 uint8_t g_poison = 0xA5;
+bool g_prev_mode = false;
+static std::vector<uint8_t> g_persist;
 unsigned g_rx_calls = 0;
 size_t g_rx_cap = 0;
 static std::vector<uint8_t> g_rx;
@@ -60,9 +62,16 @@ extern "C" ssize_t __wrap_recvfrom(int, void *buf, size_t len, int, struct socka
   g_rx_valid = false;
   g_rx_calls++;
   g_rx_cap = len;
-  memset(buf, g_poison, len);              // the stale bytes an earlier, longer datagram left behind
   size_t n = g_rx.size() < len ? g_rx.size() : len;
-  if (n) memcpy(buf, g_rx.data(), n);
+  if (g_prev_mode) {
+    // a persistent receive buffer: what earlier datagrams of this case left, new datagram over the front
+    if (g_persist.size() < len) g_persist.resize(len, 0xA5);
+    if (n) memcpy(g_persist.data(), g_rx.data(), n);
+    memcpy(buf, g_persist.data(), len);
+  } else {
+    memset(buf, g_poison, len);            // the stale bytes an earlier, longer datagram left behind
+    if (n) memcpy(buf, g_rx.data(), n);
+  }
   if (src && slen && *slen >= sizeof(struct sockaddr_in)) {
     struct sockaddr_in *a = reinterpret_cast<struct sockaddr_in*>(src);
     memset(a, 0, sizeof(*a));
@@ -78,6 +87,8 @@ static std::string handle(const std::string &p) {
   std::vector<std::string> a = vh::split(p);
   std::map<std::string, c06::Op>::iterator it = c06::ops().find(a[0]);
   if (it == c06::ops().end()) return "bad-op";
+  c06::g_persist.clear();
+  c06::g_prev_mode = false;
   return it->second(a);
 }
 
